@@ -116,8 +116,17 @@ func (k Keeper) CreateRequestContext(
 		batchState, state, responseThreshold, moduleName,
 	)
 
-	txHash := ctx.Context().Value(types.TxHash).([]byte)
-	msgIndex := ctx.Context().Value(types.MsgIndex).(int64)
+	// the ID is derived from the transaction being executed: outside a transaction (a callback running at
+	// the end of a block) no context can be created
+	txHash, ok := ctx.Context().Value(types.TxHash).([]byte)
+	if !ok {
+		return nil, sdkerrors.Wrap(types.ErrInvalidRequestContextID, "no transaction hash in the context")
+	}
+
+	msgIndex, ok := ctx.Context().Value(types.MsgIndex).(int64)
+	if !ok {
+		return nil, sdkerrors.Wrap(types.ErrInvalidRequestContextID, "no message index in the context")
+	}
 	requestContextID := types.GenerateRequestContextID(txHash, msgIndex)
 
 	// one message creates at most one context: never replace an existing one
